@@ -105,7 +105,7 @@ func c03Lens(name string, d consts.ActiveSafetyType) []int {
 		l = []int{0, 1, 20, min - 1}
 		room := 13
 		if vrt_Tier() > 0 {
-			room = 19
+			room = 16
 		}
 		for i := 0; i <= room; i++ {
 			l = append(l, min+i)
@@ -118,7 +118,7 @@ func c03Lens(name string, d consts.ActiveSafetyType) []int {
 	}
 	max, capped := 40, false
 	if vrt_Tier() > 0 {
-		max = 150
+		max = 100
 	}
 	if c, ok := c03Caps[name]; ok {
 		max, capped = c[vrt_Tier()], true
